@@ -2,15 +2,19 @@ pub mod sweep;
 pub mod c01;
 pub mod c02;
 pub mod c03;
+pub mod c04;
 pub mod c05;
 pub mod c06;
 pub mod c07;
 pub mod c08;
+pub mod c09;
 pub mod c10;
 pub mod c11;
 pub mod c12;
+pub mod c13;
 pub mod c14;
 pub mod c15;
+pub mod c16;
 pub mod c17;
 pub mod c18;
 pub mod c19;
@@ -27,15 +31,19 @@ pub fn table() -> Vec<(&'static str, CheckFn, ReplayFn)> {
         ("C01", c01::check, c01::replay),
         ("C02", c02::check, c02::replay),
         ("C03", c03::check, c03::replay),
+        ("C04", c04::check, c04::replay),
         ("C05", c05::check, c05::replay),
         ("C06", c06::check, c06::replay),
         ("C07", c07::check, c07::replay),
         ("C08", c08::check, c08::replay),
+        ("C09", c09::check, c09::replay),
         ("C10", c10::check, c10::replay),
         ("C11", c11::check, c11::replay),
         ("C12", c12::check, c12::replay),
+        ("C13", c13::check, c13::replay),
         ("C14", c14::check, c14::replay),
         ("C15", c15::check, c15::replay),
+        ("C16", c16::check, c16::replay),
         ("C17", c17::check, c17::replay),
         ("C18", c18::check, c18::replay),
         ("C19", c19::check, c19::replay),
